@@ -334,6 +334,10 @@ def make_cell(rng, family, min_width, tight_axes, tight=1.02, roomy=(1.6, 3.0), 
     if sign is None:
         sign = tuple(rng.choice((-1, 1)) for _ in range(3))
     a, b, c = target
+    if family == "tri_tiny":
+        # tilt factors that are tiny relative to the box lengths but well above the printed precision (1e-6)
+        return np.array([[a, 0, 0], [sign[0] * 10 ** rng.uniform(-5.3, -3), b, 0],
+                         [sign[1] * 10 ** rng.uniform(-5.3, -3) if rng.random() < 0.7 else 0.0, sign[2] * 10 ** rng.uniform(-5.3, -3) if rng.random() < 0.7 else 0.0, c]], float)
     if family == "tri_big":
         # LAMMPS-oriented but NOT reduced: tilt factors beyond half the box length are legal for mofun
         hi = 0.95
